@@ -118,6 +118,7 @@ class Exec:
         self.obligs = []           # emitted side obligations
         self.timeout_ms = timeout_ms
         self.inlined = set()       # qualnames executed inline
+        self.consts_seen = {}      # qualified module/class constant -> ast dump (part of the unit's fingerprint)
         self.node_kinds = set()
         self.unit = None           # qualname of the unit under verification
         self.solver_calls = 0
@@ -311,6 +312,10 @@ class Exec:
 
     def eval_const(self, p, mod, node, qual):
         """Module-level constant: evaluate its AST in a throwaway frame of that module."""
+        try:
+            self.consts_seen[qual] = ast.dump(node)
+        except Exception:
+            pass
         v = self.bi.const_override(self, qual, node)
         if v is not None:
             return v
@@ -918,6 +923,8 @@ class Exec:
             if isinstance(v, VSeq):
                 if same_sort(v.elem, sort.elem):
                     return v
+                if self.implied(p, z3.Length(v.t) == 0):
+                    return VSeq(z3.Empty(z3.SeqSort(sort.elem.z)), sort.elem, v.kind)     # the empty sequence of any type
                 if sort.elem is Real and v.elem is Int:
                     return self.bi.map_seq(self, p, v, Real, lambda t: z3.ToReal(t))
                 if sort.elem is Dyn:
@@ -1014,8 +1021,14 @@ class Exec:
             p.assume(z3.And(res.t >= front0, res.t < p.frontier))
         post = SpecEnv(self, p, dict(pre.env), old=oldp, contract=c)
         post.env["result"] = res
+        finals = {}
+        for nm in c.mutates:
+            finals[nm] = make_symbolic("fin_" + nm, c.params[nm], assumptions)
+            post.env[nm + "__final"] = finals[nm]
         for eid, etxt, _tag in c.ensures:
             p.assume(post.bool(etxt))
+        for nm, nv in finals.items():
+            self.bi.rebind_aliases(self, p, env[nm], nv)
         if c.result_expr is not None:
             res = post.value(c.result_expr)
         yield p, res
